@@ -39,6 +39,16 @@ type Scenario struct {
 	C     mgeom.Coord `json:"c,omitempty"`
 	Prog  [2][]Mut    `json:"prog"`
 	Order []int       `json:"order"` // whose step comes next (0/1); exhausted programs are skipped
+	// Reserve > 0: Reserve(n) is called on the object before it is cloned, so
+	// that empty and short objects carry spare capacity.
+	Reserve int `json:"reserve,omitempty"`
+	// Variant selects who the two owners are (geometry kinds only):
+	//   0  the original O and O.Clone()
+	//   1  C1 = O.Clone() and C1.Clone()            (clone of a clone)
+	//   2  O.Clone() and O.Clone()                  (sibling clones)
+	//   3  O.Clone() and X.Clone(), X unrelated      (clones made one after the other)
+	Variant int         `json:"variant,omitempty"`
+	X       *mgeom.Geom `json:"x,omitempty"`
 }
 
 type prop struct{}
@@ -57,7 +67,7 @@ func (prop) Plan(tier string) []core.Phase {
 func (prop) Describe() core.Description {
 	return core.Description{
 		Level: "exploration",
-		Rule: "A scenario is an object of a cloneable type (Point, LineString, LinearRing, Polygon, MultiPoint, MultiLineString, MultiPolygon in XY/XYZ/XYM/XYZM/Layout(5), built through New*Flat, SetCoords or Push so that nil and empty slices both occur; Coord; Bounds), two mutation programs (write an ordinate through FlatCoords(), move or rewrite an end offset through Ends()/Endss(), Push, Reverse, TransformInPlace, SetCoords, SetSRID, Swap with a private third object; Coord.Set and index writes; Bounds.Set/SetCoords/Extend) and a seeded interleaving of the two owners. Phase 'seq' executes the interleaving sequentially and checks both objects against their private models after every step; phase 'race' also releases the two programs as unsynchronised goroutines in the -race binary. A run is non-trivial when both owners executed at least one in-place mutation.",
+		Rule: "A scenario is an object of a cloneable type (Point, LineString, LinearRing, Polygon, MultiPoint, MultiLineString, MultiPolygon in XY/XYZ/XYM/XYZM/Layout(5), built through New*Flat, SetCoords or Push so that nil and empty slices both occur, optionally with Reserve()d spare capacity; Coord; Bounds), a choice of who the two owners are (original and clone, clone and clone-of-clone, two sibling clones, clones of two unrelated objects made one after the other), two mutation programs (write an ordinate through FlatCoords(), move or rewrite an end offset through Ends()/Endss(), Push, Reverse, TransformInPlace, SetCoords, SetSRID, Swap with a private third object; Coord.Set and index writes; Bounds.Set/SetCoords/Extend) and a seeded interleaving of the two owners. Phase 'seq' executes the interleaving sequentially and checks both objects against their private models after every step; phase 'race' also releases the two programs as unsynchronised goroutines in the -race binary. A run is non-trivial when both owners executed at least one in-place mutation.",
 		StateMeasure: "distinct (kind, layout, emptiness pattern, mutation-kind sequence of both owners, interleaving) tuples",
 		Assumptions: []string{
 			"observation is raw: type, layout, stride, SRID, FlatCoords bits, Ends, Endss (a nil and an empty slice are the same value)",
@@ -66,7 +76,7 @@ func (prop) Describe() core.Description {
 		RealComponents: []string{"go-geom root package: Clone of all cloneable types (derived.gen.go), FlatCoords/Ends/Endss, Push, Reverse, TransformInPlace, SetCoords, SetSRID, Swap, Coord.Set, Bounds.Set/SetCoords/Extend", "Go race detector"},
 		StubComponents: []string{"the two owners (seeded mutation programs and their interleaving)"},
 		FaultKinds:     []string{"mut:ord", "mut:end", "mut:sameend", "mut:push", "mut:reverse", "mut:transform", "mut:setcoords", "mut:setsrid", "mut:swap", "mut:cidx", "mut:cset", "mut:bset", "mut:bsetcoords", "mut:bextend"},
-		Probes:         []string{"probe:multipolygon-endss-write", "probe:empty-object", "probe:both-owners-mutated-in-place", "probe:owner1-first", "probe:alternating"},
+		Probes:         []string{"probe:multipolygon-endss-write", "probe:empty-object", "probe:both-owners-mutated-in-place", "probe:owner1-first", "probe:alternating", "probe:reserved-capacity", "probe:variant-0", "probe:variant-1", "probe:variant-2", "probe:variant-3"},
 	}
 }
 
@@ -109,6 +119,17 @@ func (prop) Decode(raw []byte) (any, error) {
 			return nil, fmt.Errorf("bad order")
 		}
 	}
+	if s.Reserve < 0 || s.Reserve > 64 || s.Variant < 0 || s.Variant > 3 {
+		return nil, fmt.Errorf("bad reserve/variant")
+	}
+	if s.Variant == 3 {
+		if !isGeomKind(s.Kind) || s.X == nil || s.X.T != s.Kind || s.X.L != s.G.L {
+			return nil, fmt.Errorf("variant 3 needs an unrelated object of the same kind and layout")
+		}
+	}
+	if s.Variant != 0 && !isGeomKind(s.Kind) {
+		return nil, fmt.Errorf("variants are for geometries")
+	}
 	for w := 0; w < 2; w++ {
 		if len(s.Prog[w]) > 40 {
 			return nil, fmt.Errorf("program too long")
@@ -150,6 +171,13 @@ func (prop) Generate(r *prng.Rand, phase string) any {
 		}
 		s.G = cfg.Gen(r, s.Kind, l, 0)
 		s.G.S = mgeom.SRID(r)
+		if r.Chance(0.35) {
+			s.Reserve = r.Range(1, 12)
+		}
+		s.Variant = r.Pick(5, 2, 2, 2)
+		if s.Variant == 3 {
+			s.X = cfg.Gen(r, s.Kind, l, 0)
+		}
 	case 1:
 		s.Kind = "Coord"
 		n := r.Range(0, 5)
@@ -617,36 +645,89 @@ func (prop) Execute(scAny any, phase string, log *core.Log) core.Result {
 	if m.NumCoords() == 0 {
 		res.Count("probe:empty-object", 1)
 	}
-	var c geom.T
-	if p := core.Guard(func() { c = cloneGeom(g) }); p != "" {
-		res.Fail("panic", "panic:clone:"+core.PanicSite(p), "Clone of %s panicked: %s", m, p)
-		return res
+	if s.Reserve > 0 {
+		if rs, ok := g.(interface{ Reserve(int) }); ok {
+			rs.Reserve(s.Reserve)
+			res.Count("probe:reserved-capacity", 1)
+		}
 	}
-	// at clone time: equal in type, layout, SRID, structure and bits
-	oo, errO := mgeom.Observe(g)
-	oc, errC := mgeom.Observe(c)
-	if errO != nil || errC != nil {
-		res.Fail("ill-formed", "ill-formed:clone:"+s.Kind, "original %v, clone %v", errO, errC)
-		return res
-	}
-	if d := mgeom.Diff(oo, oc); d != "" {
-		res.Fail("clone-differs", "clone-differs:"+s.Kind, "the clone %s differs from the original %s: %s", oc, oo, d)
-		return res
-	}
-	if d := observeRaw(g).diff(observeRaw(c)); d != "" {
-		res.Fail("clone-differs", "clone-differs:"+s.Kind, "the clone differs from the original: %s", d)
-		return res
+	// clone is Clone plus the at-clone-time oracle: equal in type, layout,
+	// SRID, structure and every bit
+	clone := func(src geom.T, want *mgeom.Geom, what string) (geom.T, bool) {
+		var c geom.T
+		if p := core.Guard(func() { c = cloneGeom(src) }); p != "" {
+			res.Fail("panic", "panic:clone:"+core.PanicSite(p), "Clone (%s) of %s panicked: %s", what, want, p)
+			return nil, false
+		}
+		oo, errO := mgeom.Observe(src)
+		oc, errC := mgeom.Observe(c)
+		if errO != nil || errC != nil {
+			res.Fail("ill-formed", "ill-formed:clone:"+s.Kind, "%s: source %v, clone %v", what, errO, errC)
+			return nil, false
+		}
+		if d := mgeom.Diff(oo, oc); d != "" {
+			res.Fail("clone-differs", "clone-differs:"+s.Kind, "%s: the clone %s differs from its source %s: %s", what, oc, oo, d)
+			return nil, false
+		}
+		if d := observeRaw(src).diff(observeRaw(c)); d != "" {
+			res.Fail("clone-differs", "clone-differs:"+s.Kind, "%s: the clone differs from its source: %s", what, d)
+			return nil, false
+		}
+		return c, true
 	}
 	if d := observeRaw(g).diff(rawOf(m.Clone())); d != "" {
 		res.Fail("build-differs", "build-differs:"+s.Kind, "the built object differs from its model: %s", d)
 		return res
 	}
+	// who the two owners are
+	var o0, o1 geom.T
+	m0, m1 := m, m
+	ok := true
+	switch s.Variant {
+	case 0:
+		o0 = g
+		o1, ok = clone(g, m, "O.Clone()")
+	case 1:
+		if o0, ok = clone(g, m, "C1 = O.Clone()"); ok {
+			o1, ok = clone(o0, m, "C1.Clone()")
+		}
+	case 2:
+		if o0, ok = clone(g, m, "first O.Clone()"); ok {
+			o1, ok = clone(g, m, "second O.Clone()")
+		}
+	case 3:
+		m1 = s.X.Clone().Norm()
+		var x geom.T
+		x, err = mgeom.Build(m1)
+		if err != nil {
+			res.Fail("build", "build:"+m1.T, "building %s failed: %v", m1, err)
+			return res
+		}
+		if o0, ok = clone(g, m, "O.Clone()"); ok {
+			o1, ok = clone(x, m1, "X.Clone() after O.Clone()")
+		}
+	}
+	if !ok {
+		return res
+	}
+	res.Count(fmt.Sprintf("probe:variant-%d", s.Variant), 1)
+	// both owners must hold exactly their model now (a later Clone must not
+	// have disturbed an earlier clone)
+	if d := observeRaw(o0).diff(rawOf(m0.Clone())); d != "" {
+		res.Fail("mutation-visible-through-other", "clone-disturbed-earlier-clone:"+s.Kind, "variant %d: after both owners were set up, owner 0's object differs from its model: %s", s.Variant, d)
+		return res
+	}
+	if d := observeRaw(o1).diff(rawOf(m1.Clone())); d != "" {
+		res.Fail("clone-differs", "clone-differs:"+s.Kind, "variant %d: owner 1's object differs from its model: %s", s.Variant, d)
+		return res
+	}
+	g, c := o0, o1
 	log.Addf("cloned %s layout %d: %d ordinates", s.Kind, m.L, len(g.FlatCoords()))
 	if phase == "race" {
-		return raceGeom(s, g, c, m, log)
+		return raceGeom(s, g, c, m0, m1, log)
 	}
 	owners := [2]*owner{{g: g}, {g: c}}
-	models := [2]*raw{rawOf(m.Clone()), rawOf(m.Clone())}
+	models := [2]*raw{rawOf(m0.Clone()), rawOf(m1.Clone())}
 	xs := [2]*raw{nil, nil}
 	pc := [2]int{}
 	mutated := [2]bool{}
@@ -723,7 +804,7 @@ func (prop) Execute(scAny any, phase string, log *core.Log) core.Result {
 
 func stateKey(s *Scenario) string {
 	var b bytes.Buffer
-	fmt.Fprintf(&b, "%s|", s.Kind)
+	fmt.Fprintf(&b, "%s|v%d|r%v|", s.Kind, s.Variant, s.Reserve > 0)
 	if s.G != nil {
 		fmt.Fprintf(&b, "%d|%d|", s.G.L, s.G.NumCoords())
 	}
@@ -740,10 +821,10 @@ func stateKey(s *Scenario) string {
 }
 
 // raceGeom runs the two programs as unsynchronised goroutines.
-func raceGeom(s *Scenario, g, c geom.T, m *mgeom.Geom, log *core.Log) core.Result {
+func raceGeom(s *Scenario, g, c geom.T, m0, m1 *mgeom.Geom, log *core.Log) core.Result {
 	var res core.Result
 	owners := [2]*owner{{g: g}, {g: c}}
-	models := [2]*raw{rawOf(m.Clone()), rawOf(m.Clone())}
+	models := [2]*raw{rawOf(m0.Clone()), rawOf(m1.Clone())}
 	panics := [2]string{}
 	counts := [2]map[string]int64{{}, {}}
 	mutated := [2]bool{}
